@@ -62,7 +62,7 @@ def inner_nodes(t, is_root=True):
 class CardGen:
     def __init__(self, rng, tag, nbody=3, final_j2=(0, 0, 1, 2), top_j2=None, res_j2_int=(0, 2, 2, 4), res_j2_half=(1, 3, 3, 5),
                  n_chains=(1, 3), models=("default",), p_break_prob=0.5, massless_prob=0.0, res_per_slot=(1, 1),
-                 decay_opts_prob=0.3, fixed_finals=None, fixed_top=None, top_spins=None, allow_forbidden=False):
+                 decay_opts_prob=0.3, fixed_finals=None, fixed_top=None, top_spins=None, allow_forbidden=False, decay_models=None):
         self.rng = rng
         self.tag = tag
         self.n = nbody
@@ -80,6 +80,7 @@ class CardGen:
         self.fixed_top = fixed_top
         self.top_spins = top_spins
         self.allow_forbidden = allow_forbidden
+        self.decay_models = decay_models  # registered two-body decay models other than the default LS one (helicity_full, helicity_parity, gls-bf, ...)
 
     def name(self, base):
         return "%s%s" % (base, self.tag)
@@ -257,6 +258,8 @@ class CardGen:
                     pass
                 else:
                     opts[str(extra)] = True
+            if self.decay_models and rng.random() < 0.6:
+                opts["model"] = str(rng.choice(self.decay_models))
             dec_opts[(mname, dn)] = opts
 
         # assemble config
